@@ -3,6 +3,7 @@
 import gc
 import hashlib
 import json
+import os
 import re
 import signal
 from dataclasses import dataclass, field
@@ -83,6 +84,39 @@ class _deadline:
         if self.remaining:
             signal.alarm(self.remaining)
         return False
+
+
+def library_exception_result(exc: BaseException) -> "Result":
+    """An exception that escaped harness.execute.  If it was raised by a frame of the checked
+    library (innermost Python frame under HV_REPO/src) the harness did not anticipate it: the
+    execution is reported as a violation (clause `unexpected-exception`) instead of a harness
+    crash.  Anything raised by harness code itself stays a harness error (re-raised)."""
+    from hv import boot
+
+    if isinstance(exc, (HarnessError, ReplayDivergence)):
+        raise exc
+    tb = exc.__traceback__
+    last = None
+    while tb is not None:
+        last = tb
+        tb = tb.tb_next
+    fn = os.path.realpath(last.tb_frame.f_code.co_filename) if last is not None else ""
+    if not fn.startswith(boot.SRC + os.sep):
+        raise exc
+    where = f"{os.path.relpath(fn, boot.SRC)}:{last.tb_frame.f_code.co_name}"
+    return Result(
+        "library-raised",
+        True,
+        [
+            viol(
+                "unexpected-exception",
+                f"{type(exc).__name__}@{where}",
+                "the operation completes, or fails in a way the property allows",
+                f"{type(exc).__name__}: {scrub(str(exc))[:160]} raised in {where}",
+            )
+        ],
+        {"aborted": f"{type(exc).__name__}@{where}"},
+    )
 
 
 class Stats:
@@ -175,6 +209,8 @@ def explore(  # noqa: PLR0913, PLR0912, C901
             if best is None or _rank(w) < _rank(best):
                 stats.violations[w["signature"]] = w
             break
+        except Exception as exc:  # noqa: BLE001
+            res = library_exception_result(exc)
         runs += 1
         if runs % 256 == 0:
             gc.collect()  # fixed collection points (the worker disables automatic GC)
@@ -214,7 +250,10 @@ def explore(  # noqa: PLR0913, PLR0912, C901
                     stats.violations[v["signature"]] = w
             if recheck_every and stats.executions % recheck_every == 0:
                 ch2 = Chooser(choices)
-                res2 = harness.execute(program, ch2)
+                try:
+                    res2 = harness.execute(program, ch2)
+                except Exception as exc:  # noqa: BLE001
+                    res2 = library_exception_result(exc)
                 stats.rechecked += 1
                 if (
                     ch2.choices != choices
